@@ -66,6 +66,19 @@ def run(ctx):
         parse_check(codes + [PCODE[p]], codes + [PCODE[p]], op, 'codes-list')
         parse_check(tuple([PCODE[p]] + codes), [PCODE[p]] + codes, op, 'codes-tuple-prefix')
         parse_check(np.array(codes + [PCODE[p]]), codes + [PCODE[p]], op, 'codes-array')
+        # the phase code may stand anywhere in the sequence (string prefixes put it first); every container type reads alike
+        kpos = rng.randrange(n + 1)
+        mid = codes[:kpos] + [PCODE[p]] + codes[kpos:]
+        parse_check(np.array([PCODE[p]] + codes), [PCODE[p]] + codes, op, 'codes-array-prefix')
+        parse_check(np.array(mid, dtype=rng.choice([np.int64, np.int32, np.int8])), mid, op, 'codes-array-phase-anywhere')
+        parse_check(list(mid), mid, op, 'codes-list-phase-anywhere')
+        parse_check(tuple(mid), mid, op, 'codes-tuple-phase-anywhere')
+        try:
+            rows2 = pc.paulis(np.array([[PCODE[p]] + codes, codes + [PCODE[p]]]))
+            if impl.ops_of(rows2) != [op, op]:
+                ctx.fail('paulis()', 'rows of a 2-d code array parsed to %s, expected twice %s' % (impl.ops_of(rows2), op), dict(P=op))
+        except Exception as e:
+            ctx.fail('paulis()', 'implementation raised %r on a 2-d code array' % e, dict(P=op))
         if p == 0:
             parse_check(codes, codes, op, 'codes-nophase')
             d = {i: CODE[c] for i, c in enumerate(letters) if c != 'I'}
